@@ -63,10 +63,10 @@ type c29Model struct {
 
 // c29Want is the model's expected reply.
 type c29Want struct {
-	raw    string // exact bytes for non-error replies
-	err    string // error class: arity | syntax | notint | overflow | expire
-	strict bool   // the error class itself is part of the property ("non-integer and overflow errors")
-	closes bool   // QUIT: connection is closed after the reply
+	raw    string   // exact bytes for non-error replies
+	err    string   // error class: arity | syntax | notint | overflow | expire
+	strict bool     // the error class itself is part of the property ("non-integer and overflow errors")
+	closes bool     // QUIT: connection is closed after the reply
 	elems  []string // MGET: the raw bytes of each element (for element-wise signatures)
 }
 
@@ -654,6 +654,8 @@ type c29Inst struct {
 	desc  string
 	rawK  string
 	steps int
+
+	panicked string // set by the serving goroutine before it closes the pipe
 }
 
 func c29New(env *c29Env, alpha *c29Alphabet, exact bool) *c29Inst {
@@ -666,8 +668,16 @@ func c29New(env *c29Env, alpha *c29Alphabet, exact bool) *c29Inst {
 	in.rd = bufio.NewReader(cli)
 	_ = cli.SetDeadline(time.Now().Add(5 * time.Minute)) // harness guard only: expiry is a harness error
 	go func() {
+		defer close(in.done)
+		defer func() {
+			// a panic while serving a command would take the whole gateway down; keep the
+			// worker alive and report it as that command's (missing) reply
+			if p := recover(); p != nil {
+				in.panicked = fmt.Sprint(p)
+				_ = srvEnd.Close()
+			}
+		}()
 		env.srv.handleConn(srvEnd)
-		close(in.done)
 	}()
 	in.rawK = in.rawKey()
 	return in
@@ -713,8 +723,11 @@ func c29ErrClass(msg string) string {
 }
 
 func c29ShowReply(r vrespReply, err error) string {
-	if r.Kind == 'X' || (err != nil && r.Raw == "") {
-		return fmt.Sprintf("<no reply: %v>", err)
+	if r.Kind == 'P' {
+		return "<panic>"
+	}
+	if err != nil {
+		return "<no reply>"
 	}
 	if r.Kind == '-' {
 		return "error(" + c29ErrClass(r.Str) + ")"
@@ -787,6 +800,14 @@ func (in *c29Inst) Apply(op string) (bool, error) {
 	switch {
 	case rerr != nil:
 		bad = "no well-formed reply"
+		if errors.Is(rerr, io.EOF) || errors.Is(rerr, io.ErrClosedPipe) || errors.Is(rerr, io.ErrUnexpectedEOF) {
+			<-in.done // the connection is gone, so the serving goroutine has finished: panicked is settled
+			in.quit = true
+			if in.panicked != "" {
+				bad = "gateway panicked (" + in.panicked + ")"
+				got = vrespReply{Kind: 'P'}
+			}
+		}
 	case want.err != "":
 		if got.Kind != '-' {
 			bad = "reply is not an error"
@@ -842,8 +863,11 @@ func (in *c29Inst) Apply(op string) (bool, error) {
 			switch {
 			case mv.tag == "":
 				okData = live && v == mv.v && exp == 0
-			case mv.tag == "abs" || mv.exp != 0:
+			case mv.tag == "abs":
 				wantS += "@" + strconv.FormatUint(mv.exp, 10)
+				okData = live && v == mv.v && exp == mv.exp
+			case mv.exp != 0: // relative deadline pinned when it was set: must be kept exactly
+				wantS += "@kept-" + mv.tag
 				okData = live && v == mv.v && exp == mv.exp
 			default: // relative deadline set by this very command: now+N for some now in [t0,t1]
 				n, _ := strconv.ParseInt(mv.tag[3:], 10, 64)
